@@ -157,9 +157,11 @@ def _replay_store(arg):
                 rec.append({'op': 'read', 'p': p, 'ok': r['ok'], 'cfg': r['cfg'] if r['ok'] else [], 'cls': r.get('cls', ''), 'fault': fault,
                             'reader': e['reader'], 'files': [pal.enc_file(world.get(i), KEY2, written) for i in range(1, t['npaths'] + 1)]})
                 rec[-1]['s2c_verdict'] = 'left'
-                if not on_model[0]:
-                    # an earlier read came back with another admitted outcome than the mechanism model's: the sets TLC printed
-                    # for the rest of this history presuppose the model's outcome; the trace specification judges the rest
+                if not on_model[0] or out['desync']:
+                    # an earlier read came back with another admitted outcome than the mechanism model's, or the real write took
+                    # other steps than the model's (it may be over while the model thinks it under way): the sets TLC printed for
+                    # the rest of this history presuppose the model's course; the trace specification, which is given what
+                    # really happened, judges the rest
                     out['left_to_trace'] += 1
                     continue
                 admitted = r['ok'] == 1 and r['cfg'] in e['adm']
@@ -440,6 +442,15 @@ def _store_history(args):
                 for q in live():
                     if rng.random() < 0.5:
                         read(q)
+        if real:                                              # not used yet: the history ends with a brand-new interpreter reading
+            q = len(procs) + 1
+            procs[q] = Proc(world.env, pal, KEY4)
+            procs[q].kill()
+            events.append({'op': 'spawn', 'p': q})
+            r = _real_interpreter_read(world.env, pal, KEY4)
+            events.append({'op': 'read', 'p': q, 'ok': r['ok'], 'cfg': r['cfg'], 'cls': r.get('cls', ''),
+                           'fault': fault_now(), 'files': files(), 'real_interpreter': 1})
+            feats['real_interpreter'] += 1
     finally:
         for pr in procs.values():
             if pr.alive:
